@@ -220,6 +220,26 @@ class Gen:
             out.append(Simple("dbtp <c:%s>.new" % cname, "dbtp"))      # unqualified: not visible at top level
         return out
 
+    def kw_method(self):
+        """a method with keyword parameters (one optional) and a call passing them in some order"""
+        name = self.fresh("m", "kwm")
+        ks = [self.fresh("v", "k") for _ in range(self.r.choice([2, 2, 3]))]
+        params = ", ".join("<v:%s>:%s" % (k, " 1" if i == len(ks) - 1 and self.r.random() < 0.5 else "") for i, k in enumerate(ks))
+        body = [Simple("dbtp <v:%s>" % ks[0], "dbtp"), Simple("<v:%s>" % ks[-1], "expr")]
+        order = list(ks)
+        self.r.shuffle(order)
+        vals = {k: self.r.choice(["1", '"s"', ":a", "1.5"]) for k in ks}
+        call = "<m:%s>(%s)" % (name, ", ".join("<v:%s>: %s" % (k, vals[k]) for k in order))
+        return [Compound("def <m:%s>(%s)" % (name, params), [body], [], kind="def"), Simple("dbtp " + call, "dbtp")]
+
+    def block_method(self):
+        """a method with an explicit block parameter"""
+        name = self.fresh("m", "blk")
+        b = self.fresh("v", "b")
+        body = [Simple("<v:%s>.call(1)" % b, "expr")]
+        return [Compound("def <m:%s>(&<v:%s>)" % (name, b), [body], [], kind="def"),
+                Simple("dbtp <m:%s> { |<v:%s>| <v:%s> }" % (name, self.fresh("v", "e"), "e%d" % self.n), "dbtp")]
+
     def error_stmt(self):
         return Simple(self.r.choice(["1.nope", '"s".zork(1)', "[1].first(1, 2, 3)", "undefined_thing_zz", "1 + \"s\""]), "error")
 
@@ -244,6 +264,10 @@ class Gen:
                 out += self.class_def()
             elif f == "module":
                 out += self.module_def()
+            elif f == "kwdef":
+                out += self.kw_method()
+            elif f == "blockdef":
+                out += self.block_method()
             elif f == "error":
                 out.append(self.error_stmt())
         return out
